@@ -124,6 +124,12 @@ def test_class(name):
     return re.sub(r"^(all|nonleaves|leaves|normal\.gui|normal\.nongui|normal|minimal)\.", "", n)
 
 
+def variant_of(text, vm):
+    """the variant of `vm` a node name / component form is composed with (its first variant component, e.g. qemu_kvm_centos)"""
+    m = re.search(rf"(?:^|\.){vm}\.([A-Za-z0-9_]+)", text or "")
+    return m.group(1) if m else ""
+
+
 def state_node(g, state, vm):
     """the node(s) of the graph that produce `state` for `vm` (install: the vm's object root)"""
     if state == "install":
@@ -208,30 +214,36 @@ def judge(ctx, case, obs):
     for g in graphs:
         vm = g["vm"]
         frm, to = states_of(case, vm)
-        tn, fn = state_node(g, to, vm), state_node(g, frm, vm)
-        if len(tn) != 1 or len(fn) != 1:
-            bad("state-not-unique-accepted", f"{vm}@{g['worker']}: to_state {to} -> nodes {tn}, from_state {frm} -> {fn}, "
-                f"yet update went ahead")
-            return
-        tn, fn = tn[0], fn[0]
-        anc_to, anc_from = ancestors_or_self(g, tn), ancestors_or_self(g, fn)
-        if fn not in anc_to:
-            ctx.count("oracle.from-not-before-to")
-            return      # outside the quantifier (from_state is not on the way to to_state)
-        path = {i for i in anc_to if i not in anc_from or i == fn}
-        for i in path:
-            if not g["nodes"][i]["shared_root"]:
-                want_exec.add((vm, test_class(g["nodes"][i]["name"])))
-        for i in descendants(g, tn):
-            n = g["nodes"][i]
-            if n["cloned"]:
-                continue
-            for svm, st, key in n["sets"]:
-                if svm == vm:
-                    want_unset.add((g["worker"], vm, st))
-                else:
-                    # a dependant that saves a state of ANOTHER vm: the property forbids touching it
-                    pass
+        # a selected vm may stand for several variants (no restriction): the path is updated for each of them
+        variants = sorted({variant_of(cf, vm) for n in g["nodes"] for cf in n["cfs"] if cf.startswith(vm + ".")})
+        ctx.count(f"oracle.variants={len(variants)}")
+        for var in variants:
+            def of_var(i):
+                return any(cf.startswith(vm + ".") and variant_of(cf, vm) == var for cf in g["nodes"][i]["cfs"])
+            tn, fn = [i for i in state_node(g, to, vm) if of_var(i)], [i for i in state_node(g, frm, vm) if of_var(i)]
+            if len(tn) != 1 or len(fn) != 1:
+                bad("state-not-unique-accepted", f"{vm}/{var}@{g['worker']}: to_state {to} -> nodes {tn}, from_state {frm} -> "
+                    f"{fn}, yet update went ahead")
+                return
+            tn, fn = tn[0], fn[0]
+            anc_to, anc_from = ancestors_or_self(g, tn), ancestors_or_self(g, fn)
+            if fn not in anc_to:
+                ctx.count("oracle.from-not-before-to")
+                return      # outside the quantifier (from_state is not on the way to to_state)
+            path = {i for i in anc_to if i not in anc_from or i == fn}
+            for i in path:
+                if not g["nodes"][i]["shared_root"]:
+                    want_exec.add((vm, var, test_class(g["nodes"][i]["name"])))
+            for i in descendants(g, tn):
+                n = g["nodes"][i]
+                if n["cloned"]:
+                    continue
+                for svm, st, key in n["sets"]:
+                    if svm == vm:
+                        want_unset.add((g["worker"], vm, var, st))
+                    else:
+                        # a dependant that saves a state of ANOTHER vm: the property forbids touching it
+                        pass
     got_exec = []
     for e in starts:
         vms = (e["vms"] or "").split()
@@ -239,7 +251,7 @@ def judge(ctx, case, obs):
         if e["type"] == "shared_configure_install":
             continue     # the configuration half of the two-step install (same test id as the install)
         for vm in vms:
-            got_exec.append((vm, cls))
+            got_exec.append((vm, variant_of(e["name"], vm), cls))
         if e["worker"] != e["nets"] or e["nets"] not in case["nets"]:
             bad("foreign-worker", f"test of {e['nets']} executed by {e['worker']}")
         if (e["get_mode"], e["set_mode"], e["unset_mode"]) != ("ra", "ff", "fi"):
@@ -248,7 +260,7 @@ def judge(ctx, case, obs):
         miss = sorted(want_exec - set(got_exec))
         extra = sorted(set(got_exec) - want_exec)
         dup = sorted({x for x in got_exec if got_exec.count(x) > 1})
-        key = ("executed-other-vm" if any(v not in sel for v, _ in extra) else
+        key = ("executed-other-vm" if any(x[0] not in sel for x in extra) else
                "executed-off-path" if extra else "path-test-not-executed" if miss else "path-test-executed-twice")
         bad(key, f"executed {sorted(got_exec)}; path from_state..to_state = {sorted(want_exec)} "
                  f"(missing {miss}, extra {extra}, repeated {dup})")
@@ -258,14 +270,14 @@ def judge(ctx, case, obs):
             continue
         for suffix, r in d["reqs"].items():
             vm = suffix.split("_")[-1]
-            got_unset.append((d["nets"], vm, r["state"]))
+            got_unset.append((d["nets"], vm, variant_of(d.get("name") or "", vm), r["state"]))
             if r["mode"][:1] != "f":
                 bad("unset-mode", f"unset of {r['state']} with mode {r['mode']}")
     if sorted(got_unset) != sorted(want_unset):
         miss = sorted(want_unset - set(got_unset))
         extra = sorted(set(got_unset) - want_unset)
         dup = sorted({x for x in got_unset if got_unset.count(x) > 1})
-        key = ("removed-other-vm" if any(v not in sel for _, v, _ in extra) else
+        key = ("removed-other-vm" if any(x[1] not in sel for x in extra) else
                "removed-not-derived" if extra else "derived-state-kept" if miss else "removed-twice")
         bad(key, f"removed {sorted(got_unset)}; states derived from to_state on every worker = {sorted(want_unset)} "
                  f"(missing {miss}, extra {extra}, repeated {dup})")
@@ -380,6 +392,11 @@ def gen_cases(rng, thorough):
         for vms, nw, ft, rs in plan:
             nets = list(nw) if isinstance(nw, list) else rng.sample(NETS, nw)
             cases.append(mk_case(rng, vms, nets, ft, rs))
+        # a selected vm without restriction stands for all of its variants: the path is updated for each variant
+        c = mk_case(rng, ["vm1"], rng.sample(NETS, 2), {"vm1": rng.choice([("customize", "linux_virtuser"),
+                                                                           ("customize", "customize")])}, None)
+        c["vms"]["vm1"] = ""
+        cases.append(c)
     else:
         combos = []
         for vm in ("vm1", "vm2", "vm3"):
@@ -394,7 +411,10 @@ def gen_cases(rng, thorough):
             nets = rng.sample(NETS, nw)
             if vms == ["vm1"] and rng.random() < 0.3:
                 nets.insert(rng.randrange(len(nets)), "net5")      # incompatible with the default CentOS vm1
-            cases.append(mk_case(rng, vms, nets, ft, rs))
+            c = mk_case(rng, vms, nets, ft, rs)
+            if vms == ["vm1"] and "net5" not in nets and rng.random() < 0.25:
+                c["vms"]["vm1"] = ""          # all variants of vm1 (CentOS, Fedora)
+            cases.append(c)
         for _ in range(24):
             vms = sorted(rng.sample(["vm1", "vm2", "vm3"], rng.choice([2, 2, 3])))
             ft = {vm: rng.choice(pairs(vm)) for vm in vms}
